@@ -362,7 +362,25 @@ class INT:
             if op == "Ne":
                 return self.mkbool(x != y)
             raise Unsupported("bool op " + op)
-        if is_signed(ty) and op not in ("Eq", "Ne", "Lt", "Le", "Gt", "Ge", "Sub", "Add"):
+        if is_signed(ty):
+            x, y = self.term(a), self.term(b)
+            alo, ahi, _ = self.rng(a) if not (isinstance(a.v, Sym) and a.v.lo is None) else (-(1 << (INT_W[ty] - 1)), (1 << (INT_W[ty] - 1)) - 1, 0)
+            blo, bhi, _ = self.rng(b) if not (isinstance(b.v, Sym) and b.v.lo is None) else (-(1 << (INT_W[ty] - 1)), (1 << (INT_W[ty] - 1)) - 1, 0)
+            smin, smax = -(1 << (INT_W[ty] - 1)), (1 << (INT_W[ty] - 1)) - 1
+            if op in ("Eq", "Ne", "Lt", "Le", "Gt", "Ge"):
+                t = {"Eq": x == y, "Ne": x != y, "Lt": x < y, "Le": x <= y, "Gt": x > y, "Ge": x >= y}[op]
+                return self.mkbool(t)
+            if op in ("Add", "Sub", "AddWithOverflow", "SubWithOverflow", "AddUnchecked", "SubUnchecked"):
+                if op[0] == "A":
+                    t, lo, hi = x + y, alo + blo, ahi + bhi
+                else:
+                    t, lo, hi = x - y, alo - bhi, ahi - blo
+                if lo < smin or hi > smax:
+                    raise Unsupported("INT domain: signed %s may overflow [%d,%d]" % (op, lo, hi))
+                r = Sc(lo, ty) if lo == hi else Sc(Sym(t, lo, hi, 0), ty)
+                if op.endswith("WithOverflow"):
+                    return Agg([r, Sc(False, "bool")], name="tuple")
+                return r
             raise Unsupported("INT domain: signed %s" % op)
         w = INT_W[ty]
         x, y = self.term(a), self.term(b)
@@ -475,6 +493,12 @@ class INT:
         if is_signed(v.ty) or is_signed(ty):
             if lo >= 0 and hi < (1 << (INT_W[ty] - (1 if is_signed(ty) else 0))):
                 return Sc(v.v, ty)
+            if is_signed(ty) and not is_signed(v.ty):
+                # unsigned -> signed of the same or smaller width: reduce first, then the value must fit the positive range
+                r = self.low_bits(v, INT_W[ty])
+                rlo, rhi, _ = self.rng(r)
+                if rhi < (1 << (INT_W[ty] - 1)):
+                    return Sc(r.v, ty)
             raise Unsupported("INT: signed cast %s -> %s" % (v.ty, ty))
         w1 = INT_W[ty]
         if hi < (1 << w1):
